@@ -283,8 +283,9 @@ def synthetic():
 
 def candidates(seed, around=None):
     shapes = synthetic()
-    # one declaration per library where a rejected declaration would hide its neighbours: first in groups (fast), a
-    # group that is rejected as a whole is split
+    for x in corpus():
+        yield x
+    # one declaration per library: a rejected declaration would hide its neighbours
     for lang in ("c++", "c"):
         for opts in ({}, {"F_CFI": "true"}):
             group = []
@@ -292,8 +293,6 @@ def candidates(seed, around=None):
                 if lang == "c" and ("std::" in sh or "&" in sh):
                     continue
                 yield {"decls": [sh % i], "language": lang, "options": opts}
-    for x in corpus():
-        yield x
     # libraries with several declarations: classes and structs by value / pointer / reference, and random pairs of the
     # argument shapes in one function (thorough tier reaches these)
     import random
